@@ -133,3 +133,88 @@ Definition model_case (a b a' b' : tree) : td_case :=
      tc_bipA := get_bipartition (norm3 sa); tc_bipB := get_bipartition (norm3 sb);
      tc_ab := both sa sb; tc_ba := both sb sa; tc_aa := both sa sa; tc_bb := both sb sb;
      tc_pab := both (print a') (print b') |}.
+
+(* ------------------------------------------------------------------------
+   Object-level cases (wave 3): Tree OBJECTS with odd-but-legal taxon names
+   (blanks, quoted labels) and histories on one object (compare, modify in
+   place, compare again).  Quoted labels are outside the character-level model,
+   so there is no bit 0 here: the checkers test the property's clauses on the
+   implementation's outputs against the string-free reference (Spec.v) computed
+   from the rose trees a, b the harness expects the objects to be. *)
+
+Definition printable (c : ascii) : bool := let n := nat_of_ascii c in (32 <=? n) && (n <=? 126).
+Local Open Scope char_scope.
+(* the cogent writer quotes a name containing one of these *)
+Definition quote_trigger (c : ascii) : bool :=
+  existsb (Ascii.eqb c) ["["; "]"; "'"; """"; "("; ")"; ","; ":"; ";"; "_"].
+(* get_bipartition cuts the text at these, quoted or not *)
+Definition scanner_char (c : ascii) : bool := existsb (Ascii.eqb c) ["("; ")"; ","; ":"; ";"].
+Definition edge_blank (n : str) : bool :=
+  match n with [] => true | c :: _ => Ascii.eqb c " " || Ascii.eqb (last n " ") " " end.
+Local Close Scope char_scope.
+
+(* names for which the distance clauses are checked: printable, no blank at either end, no "/"
+   (grf rewrites it); names containing a character the scanner cuts at only when [lift_s], names the
+   writer quotes only when [lift] (known findings "structural-char-in-name" / "quoted-name-position"
+   repaired, or their witnesses being evaluated) *)
+Definition name_dist_ok (lift lift_s : bool) (n : str) : bool :=
+  forallb printable n && negb (edge_blank n) && negb (has_char "/"%char n)
+  && (lift_s || negb (existsb scanner_char n)) && (lift || negb (existsb quote_trigger n)).
+
+(* names for which the write -> parse round trip is checked: a name written unquoted with its blanks
+   turned into "_" comes back with underscores (known finding "blank-name-roundtrip") unless [lift] *)
+Definition name_rt_ok (lift : bool) (n : str) : bool :=
+  forallb printable n && negb (edge_blank n)
+  && (lift || existsb quote_trigger n || negb (has_char " "%char n)).
+
+Definition owfb (lift lift_s : bool) (t : tree) : bool :=
+  proper t && names_ok (leaves t) && (4 <=? length (leaves t)) && forallb (name_dist_ok lift lift_s) (leaves t).
+
+Record ob_case := {
+  oc_a : tree; oc_b : tree; oc_a' : tree; oc_b' : tree;   (* what the objects are expected to be *)
+  oc_lift_q : bool; oc_lift_s : bool; oc_lift_b : bool;
+  oc_tipsA : list str; oc_cladesA : list (list str);      (* impl: getTipNames(), tip names of the internal nodes *)
+  oc_tipsB : list str; oc_cladesB : list (list str);
+  oc_rts : list (list str * list (list str));             (* impl: tips/clades of Tree(w) for every writer w of object A *)
+  oc_ab : option Q * option Q; oc_ba : option Q * option Q;
+  oc_aa : option Q * option Q; oc_bb : option Q * option Q;
+  oc_pab : option Q * option Q
+}.
+
+Section ObChecks.
+  Variable c : ob_case.
+  Let a := oc_a c.
+  Let b := oc_b c.
+  Let R := leaves a.
+  Let lq := oc_lift_q c.
+  Let ls := oc_lift_s c.
+  Definition ovalid : bool := owfb lq ls a && owfb lq ls b && same_taxa a b.
+  Definition oguard : bool := ovalid && has_split a && has_split b.
+  Definition oreordered : bool := tree_permb a (oc_a' c) && tree_permb b (oc_b' c).
+
+  Definition ochk1 : bool :=
+    (negb (owfb lq ls a && has_split a) || is0 (fst (oc_aa c)) && is0 (snd (oc_aa c)))
+    && (negb (owfb lq ls b && has_split b) || is0 (fst (oc_bb c)) && is0 (snd (oc_bb c))).
+  Definition ochk2 : bool :=
+    negb (oguard && oreordered)
+    || oq_eqb (fst (oc_pab c)) (fst (oc_ab c)) && oq_eqb (snd (oc_pab c)) (snd (oc_ab c))
+       && negb (match fst (oc_ab c) with None => true | _ => false end).
+  Definition ochk3 : bool :=
+    in01 (fst (oc_ab c)) && in01 (fst (oc_ba c)) && in01 (fst (oc_pab c))
+    && (negb ovalid || in01 (snd (oc_ab c)) && in01 (snd (oc_ba c)) && (negb oreordered || in01 (snd (oc_pab c)))).
+  Definition ochk4 : bool := negb oguard || oq_eqb (snd (oc_ab c)) (snd (oc_ba c)).
+  (* the values are those of the reference formulas on the expected trees, i.e. those of fresh objects *)
+  Definition ochk5 : bool :=
+    negb ovalid || oq_eqb (snd (oc_ab c)) (spec_rf R a b) && oq_eqb (fst (oc_ab c)) (spec_grf R a b).
+  Definition ochk6 : bool :=
+    negb (forallb (name_rt_ok (oc_lift_b c)) (oc_tipsA c) && names_ok (oc_tipsA c))
+    || forallb (fun r => set_eqb (fst r) (oc_tipsA c) && setsets_eqb (snd r) (oc_cladesA c)) (oc_rts c).
+  (* the object is in the state the history should have produced *)
+  Definition ochk7 : bool :=
+    strs_eqb (oc_tipsA c) (leaves a) && setsets_eqb (oc_cladesA c) (clades a)
+    && strs_eqb (oc_tipsB c) (leaves b) && setsets_eqb (oc_cladesB c) (clades b).
+End ObChecks.
+
+Definition ob_case_code (c : ob_case) : nat :=
+  bit 1 (ochk1 c) + bit 2 (ochk2 c) + bit 3 (ochk3 c) + bit 4 (ochk4 c) + bit 5 (ochk5 c) + bit 6 (ochk6 c)
+  + bit 7 (ochk7 c).
